@@ -38,6 +38,7 @@ def cli_args(wl, nthreads, fmt, infile='in.fa', outfile=None, quiet=True, extra=
 def base_plan(pid, world, dec=None, pre=None, trace=True):
     p = Plan(pid)
     p.world = dict(world)
+    p.world.setdefault('wall_limit', 20)
     if trace:
         p.world['trace'] = 1
     if dec is not None:
